@@ -228,8 +228,8 @@ def run_case(ctx, case):
     asan = getattr(ctx, "c11_asan", None)
     if asan is not None and r["id"] in asan and asan[r["id"]][0] == r:
         ao = asan[r["id"]][1]
-    elif asan is None and "crash" not in o and "hang" not in o and o.get("exc") != "MemoryError":
-        ao = run_asan(ctx, [r])[0]          # replay of a single case
+    elif "crash" not in o and "hang" not in o and o.get("exc") != "MemoryError" and o.get("elapsed", 0) < 5:
+        ao = run_asan(ctx, [r])[0]          # corpus case or replay of a single case
     if ao is not None and "crash" in ao and "AddressSanitizer" in ao["crash"].get("stderr", "") \
             and "requested allocation size" not in ao["crash"].get("stderr", "") and "out of memory" not in ao["crash"].get("stderr", ""):
         err = ao["crash"]["stderr"]
